@@ -37,7 +37,7 @@ ASSUMPTIONS = [
   'exceptions are injected at callback boundaries of module bodies, not between two bytecodes of flax itself',
   'all arithmetic is small integers in float32, so byte comparison is exact however XLA fuses',
 ]
-PROBES = ['fault_in_setup_or_body', 'write_outside_filter_raises', 'write_inside_filter_ok', 'repeat_checked', 'memo_hit_after_fault', 'frozen_returns', 'bind_unbind', 'core_api', 'observe_capture', 'observe_strip_sow', 'observe_no_perturb_col', 'collections_rule_checked', 'inner_module_attr', 'gc_event', 'context_intercept', 'context_named_call_on', 'context_named_call_off', 'context_tabulate', 'concurrent_interleaved', 'inner_from_bound_model', 'inner_below_unbound_container', 'route_nn_init', 'route_nn_apply', 'route_method_str', 'route_method_fn']
+PROBES = ['fault_in_setup_or_body', 'write_outside_filter_raises', 'write_inside_filter_ok', 'repeat_checked', 'memo_hit_after_fault', 'frozen_returns', 'bind_unbind', 'core_api', 'observe_capture', 'observe_strip_sow', 'observe_no_perturb_col', 'collections_rule_checked', 'inner_module_attr', 'gc_event', 'context_intercept', 'context_named_call_on', 'context_named_call_off', 'context_tabulate', 'concurrent_interleaved', 'inner_from_bound_model', 'inner_below_unbound_container', 'route_nn_init', 'route_nn_apply', 'route_method_str', 'route_method_fn', 'filter_set_reused']
 
 errors = None
 
@@ -64,8 +64,10 @@ def gen_filter(g):
     return True
   if r < 0.5:
     return g.choice(cols)
-  if r < 0.75:
+  if r < 0.68:
     return g.sample(cols, g.randrange(1, 4))
+  if r < 0.78:
+    return {'set': sorted(g.sample(cols, g.randrange(1, 4)))}  # a Python set object, kept and reused by the caller
   if r < 0.9:
     return {'deny': g.choice(cols)}
   return {'deny': g.sample(cols, g.randrange(1, 3))}
@@ -139,12 +141,16 @@ def in_filter(f, col):
     return col == f
   if isinstance(f, list):
     return col in f
+  if isinstance(f, dict) and 'set' in f:
+    return col in f['set']
   if isinstance(f, dict):
     return not in_filter(f['deny'], col)
   raise ValueError(f)
 
 
 def real_filter(f):
+  if isinstance(f, dict) and 'set' in f:
+    return set(f['set'])
   if isinstance(f, dict):
     d = f['deny']
     return flax.core.DenyList(d if isinstance(d, str) else tuple(d))
@@ -397,6 +403,8 @@ class LWorld:
             raise Violation('returned-shares-input', f'op {oi}: the returned variables share a dict object with the input variables')
         self.memo_check(oi, key, (val(y), val(mut) if mut is not None else None), 'apply')
         first = (y, mut)
+        if isinstance(rF, set) and rF != set(F['set']):
+          raise Violation('inputs-changed', f'op {oi}: the set passed as `mutable` was {sorted(F["set"])} and is {sorted(rF)} after the call')
       if op.get('fault'):
         at = op['fault']['at'] % max(1, n_events)
         out2 = self.guarded(oi, 'apply(fault)', fn, fault_at=at)
@@ -515,6 +523,18 @@ class LWorld:
         if o[0] != 'ok' or val(o[1][0]) != y0:
           raise Violation('observation-changed-output', f'op {oi}: capture_intermediates changed the primary output')
         n_ev = P.CTL.count
+        # a caller-owned set as filter, reused for a capturing and then a plain call
+        fs = {'stats', 'cache'} if op['seed'] % 2 else {'aux'}
+        fs0 = set(fs)
+        with_set = lambda: m.apply(v, x, rngs=rngs, mutable=fs)  # noqa: E731
+        s_before = self.guarded(oi, 'apply(mutable=set)', with_set)
+        self.guarded(oi, 'apply(mutable=set, capture)', lambda: m.apply(v, x, rngs=rngs, mutable=fs, capture_intermediates=True))
+        if fs != fs0:
+          raise Violation('inputs-changed', f'op {oi}: the set passed as `mutable` together with capture_intermediates=True was {sorted(fs0)} and is now {sorted(fs)}')
+        s_after = self.guarded(oi, 'apply(mutable=set) again', with_set)
+        if s_before[0] != s_after[0] or (s_before[0] == 'ok' and val(s_before[1]) != val(s_after[1])):
+          raise Violation('not-repeatable', f'op {oi}: apply(mutable=<the same set object>) returns something else after a capturing call used that set')
+        res.probe('filter_set_reused')
         # the same capturing call, aborted half-way by an exception inside a module body ...
         at = (op['seed'] * 7 + op['fill']) % max(1, n_ev)
         self.guarded(oi, 'apply(capture, fault)', lambda: m.apply(v, x, rngs=rngs, mutable=['intermediates'], capture_intermediates=True), fault_at=at)
